@@ -915,3 +915,35 @@ pub fn s_castle_legal(p: &Pos, kingside: bool) -> bool {
     let m = Mv { src: base + 4, dst, promo: None };
     p.king_sq(me) == base + 4 && s_pseudo(p, &m)
 }
+
+// ---------------------------------------------------------------- symmetries (C17)
+pub fn s_mirror_mv(m: &Mv) -> Mv {
+    Mv { src: m.src ^ 56, dst: m.dst ^ 56, promo: m.promo }
+}
+pub fn s_flip_bb(b: u64) -> u64 {
+    b.reverse_bits().swap_bytes()
+}
+/// left-right flip (file a <-> h); only meaningful without castling rights
+pub fn s_flip(p: &Pos) -> Pos {
+    let mut q = *p;
+    let mut i = 0;
+    while i < 6 {
+        q.pieces[i] = s_flip_bb(p.pieces[i]);
+        i += 1;
+    }
+    q.colors[0] = s_flip_bb(p.colors[0]);
+    q.colors[1] = s_flip_bb(p.colors[1]);
+    q.ep = match p.ep {
+        Some(e) => Some(e ^ 7),
+        None => None,
+    };
+    q
+}
+pub fn s_flip_mv(m: &Mv) -> Mv {
+    Mv { src: m.src ^ 7, dst: m.dst ^ 7, promo: m.promo }
+}
+pub fn s_pos_eq(a: &Pos, b: &Pos) -> bool {
+    a.pieces[0] == b.pieces[0] && a.pieces[1] == b.pieces[1] && a.pieces[2] == b.pieces[2] && a.pieces[3] == b.pieces[3]
+        && a.pieces[4] == b.pieces[4] && a.pieces[5] == b.pieces[5] && a.colors[0] == b.colors[0] && a.colors[1] == b.colors[1]
+        && a.stm == b.stm && a.rights[0] == b.rights[0] && a.rights[1] == b.rights[1] && a.ep == b.ep
+}
